@@ -308,8 +308,9 @@ def _stmt(st, ctr, what):
     elif isinstance(st, (ast.For, ast.While)):
         head = [("stmt", st)]
         # zero iterations
+        exit_ev = [("cond", st.test, False)] if isinstance(st, ast.While) else []     # leaving a while loop normally: its test is false
         for ev, k, n in _seq(st.orelse, ctr, what):
-            yield head + [("iter", st, 0)] + ev, k, n
+            yield head + [("iter", st, 0)] + exit_ev + ev, k, n
         # one iteration
         for ev, k, n in _seq(st.body, ctr, what):
             pre = head + [("iter", st, 1)]
@@ -317,7 +318,7 @@ def _stmt(st, ctr, what):
                 pre = pre + [("cond", st.test, True)]
             if k in ("fall", "continue"):
                 for ev2, k2, n2 in _seq(st.orelse, ctr, what):
-                    yield pre + ev + ev2, k2, n2
+                    yield pre + ev + exit_ev + ev2, k2, n2
             elif k == "break":
                 yield pre + ev, "fall", None
             else:
